@@ -331,7 +331,7 @@ package common
 //@   ensures [pairs-are-new-objects] result1 == nil ==> (forall i in 0..numPrimes :: (fresh(result0[i]) && fresh(result0[i].p) && fresh(result0[i].q)))
 //@   loop 0 invariant 0 <= i && primeCh != nil && errCh != nil && primeCh != errCh && fresh(primeCh) && fresh(errCh) && waitGroup != nil && !isnil(generatorCtx) && cancelGeneratorCtx != nil && len(primes) == 0 && cap(primes) == numPrimes && fresh(arr(primes))
 //@   loop 0 invariant !closed(primeCh) && !closed(errCh) && recvd(primeCh) == 0 && recvd(errCh) == 0 && sent(primeCh) >= 0 && sent(errCh) >= 0
-//@   loop 0 invariant [C19.one-error-slot-per-worker] sent(errCh) <= i && chancap(errCh) == concurrency
+//@   loop 0 invariant [C19.one-error-slot-per-worker] sent(errCh) <= i && chancap(errCh) >= concurrency
 //@   loop 0 invariant forall k in 0..sent(errCh) :: !isnil(as(sentv(errCh, k), "error"))
 //@   loop 0 invariant forall k in 0..sent(primeCh) :: (sgpOK(gsp(primeCh, k), bitLen) && fresh(gsp(primeCh, k)) && fresh(gsp(primeCh, k).p) && fresh(gsp(primeCh, k).q))
 //@   loop 1 invariant primeCh != nil && errCh != nil && primeCh != errCh && fresh(primeCh) && fresh(errCh) && waitGroup != nil && cancelGeneratorCtx != nil && fresh(arr(primes)) && cap(primes) >= numPrimes
